@@ -15,6 +15,8 @@ Schedules (all steered by events, never by sleeps or deadlines):
   C  the owner thread nests `with tree:` and runs every snapshot operation inside (re-entrancy).
   F  a snapshot operation is ended by an exception raised in the user's callback (mapper / predicate) at its k-th call;
      afterwards the lock must be free (acquire/release counts of the ended thread, follow-up operations unblocked).
+  G  an earlier save() is still in its output phase (slow target) while the owner, half-way through an update inside
+     `with tree:`, calls a snapshot operation itself and a third thread reads: the reader may only see committed states.
   D  a (nested) critical section is left through an exception (user Exception, BaseException, refused
      library call); once that thread has ended the event log must show the lock released as often as
      acquired, and readers then run every snapshot operation without finding the lock taken.
@@ -42,7 +44,7 @@ from ..core import rng_for, short_tb
 
 PROP = "C18"
 LEVEL = "exploration"
-RULE = ("case = one schedule point: (schedule A|B|C|D|F, snapshot operation, writer style in {relabel, rebuild, mixed}, writer "
+RULE = ("case = one schedule point: (schedule A|B|C|D|F|G, snapshot operation, writer style in {relabel, rebuild, mixed}, writer "
         "phase p of m, nesting depth, number of readers; D: kind of exception that ends the critical section) or one stress run (seed, writers, readers, iterations); every "
         "(operation x style x phase) cell is enumerated; non-trivial = schedule with a writer phase strictly inside the "
         "critical section, schedule B or D, or a stress run with >= 1 observed blocking; distinct by case description")
@@ -63,8 +65,7 @@ G, C = 3, 3  # groups x children
 WATCHDOG = 20.0
 
 
-class SelfDeadlock(Exception):
-    pass
+from ..locktrack import DeadlockDetected as SelfDeadlock  # raised by the observed lock instead of hanging
 
 
 class Log:
@@ -208,12 +209,26 @@ def interleaving_signature(log, roles):
     return hashlib.blake2b(repr(seq).encode(), digest_size=6).hexdigest()
 
 
+def attach_log(t, log):
+    """Attaches the event log to the lock the library created for this tree (vmon/locktrack.py hands out tracking locks while
+    nutree is imported and to nutree's modules afterwards), so that everything that holds a reference to that lock - e.g. a
+    `threading.Condition` bound to it - is observed, too.  Fallback (lock of an unknown class): a logging proxy in front."""
+    from .. import locktrack
+
+    lk = t._lock
+    if isinstance(lk, locktrack.Tracked):
+        lk.log, lk.name = log, "tree"
+        return lk
+    t._lock = LockProxy(lk, log)
+    return t._lock
+
+
 def instrument(t, log):
-    """Installs the proxy and verifies that `with tree:` really goes through it."""
+    """Attaches the log and verifies that `with tree:` really goes through the observed lock."""
     if not hasattr(t, "_lock") or not hasattr(t._lock, "acquire"):
         return False
     TRACKED["n"] += type(t._lock).__name__ == "TrackedRLock"
-    t._lock = LockProxy(t._lock, log)
+    attach_log(t, log)
     n0 = len(log.events)
     with t:
         pass
@@ -575,7 +590,7 @@ def schedule_B(case, res):
 def schedule_C(case, res):
     log = Log()
     t = build_tree(0)
-    t._lock = LockProxy(t._lock, log)
+    attach_log(t, log)
     tmpdir = tempfile.mkdtemp(prefix="vmon-c18-")
     bad = []
     done = threading.Event()
@@ -636,7 +651,7 @@ def schedule_D(case, res):
     is free; only then a reader runs each snapshot operation, which must not find the lock taken."""
     log = Log()
     t = build_tree(0)
-    t._lock = LockProxy(t._lock, log)
+    attach_log(t, log)
     tmpdir = tempfile.mkdtemp(prefix="vmon-c18-")
     bad = []
     seen = []
@@ -710,6 +725,114 @@ def schedule_D(case, res):
         res.violation(case, "; ".join(dict.fromkeys(bad))[:2500])
 
 
+class _SlowStream(io.StringIO):
+    """A text target whose first write pauses (a slow disk, a socket): the pause is in the *output* phase of save()."""
+
+    def __init__(self, hook):
+        super().__init__()
+        self._hook = hook
+
+    def write(self, s):
+        self._hook.hit()
+        return super().write(s)
+
+
+def schedule_G(case, res):
+    """Three threads: (1) an earlier save() is still writing its output to a slow target (no lock needed any more); (2) the
+    owner is inside `with tree:`, half-way through an update, and calls a snapshot operation itself; (3) a reader calls a
+    snapshot operation meanwhile.  The reader may only see a committed state - whatever the owner's nested call does with the
+    lock (e.g. waiting on a condition bound to it)."""
+    op, owner_op, style = case["op"], case["owner_op"], case["style"]
+    log = Log()
+    t = build_tree(0)
+    attach_log(t, log)
+    tmpdir = tempfile.mkdtemp(prefix="vmon-c18-")
+    bad, errors, results = [], [], {}
+    hook = Hook(1)
+    steps = writer_steps(t, style, 0)
+    p = max(1, len(steps) // 2)
+
+    def slow_saver():
+        try:
+            t.save(_SlowStream(hook))
+        except Exception:
+            errors.append("slow save raised: " + short_tb(4))
+
+    t1 = threading.Thread(target=slow_saver, daemon=True)
+    t1.start()
+    if not hook.paused.wait(WATCHDOG):
+        res.inconc("schedule G: the slow save never reached its output phase")
+        hook.resume.set()
+        shutil.rmtree(tmpdir, ignore_errors=True)
+        return
+    mid = threading.Event()
+    rdone = threading.Event()
+    rid = {}
+
+    def owner():
+        try:
+            with t:
+                for s_ in steps[:p]:
+                    s_()
+                mid.set()
+                run_op(owner_op, t, tmpdir)  # the owner's own snapshot call, in the middle of its update
+                log.add("owner-op-done", threading.get_ident())
+                # go on only after the reader is blocked on the lock or has returned
+                log.wait_for(lambda evs: any(e[1] in ("blocked", "ret") and e[2] == rid.get("r") for e in evs))
+                for s_ in steps[p:]:
+                    s_()
+        except Exception:
+            errors.append("owner raised: " + short_tb(4))
+
+    def reader():
+        me = threading.get_ident()
+        rid["r"] = me
+        log.add("call", me, op)
+        try:
+            results["r"] = run_op(op, t, tmpdir)
+        except Exception:
+            errors.append("reader raised: " + short_tb(4))
+        log.add("ret", me, op)
+        rdone.set()
+
+    tw = threading.Thread(target=owner, daemon=True)
+    tw.start()
+    if not mid.wait(WATCHDOG):
+        res.inconc("schedule G: owner did not reach the middle of its update")
+    tr = threading.Thread(target=reader, daemon=True)
+    tr.start()
+    # the slow save may finish once the reader is blocked on the lock or has returned
+    log.wait_for(lambda evs: any(e[1] in ("blocked", "ret") and e[2] == rid.get("r") for e in evs))
+    hook.resume.set()
+    for th in (t1, tw, tr):
+        th.join(WATCHDOG * 2)
+    from .. import locktrack
+
+    if locktrack.DEADLOCKS:
+        bad.append("deadlock among the library's locks: " + locktrack.DEADLOCKS[0])
+        del locktrack.DEADLOCKS[:]
+    if any(th.is_alive() for th in (t1, tw, tr)):
+        if not bad:
+            res.inconc("schedule G: watchdog fired")
+            shutil.rmtree(tmpdir, ignore_errors=True)
+            return
+    res.count("cell:G")
+    if "r" in results:
+        msg = check_snapshot(labels_of(op, results["r"]), {0, 1})
+        res.count("snapshots_checked")
+        if msg:
+            bad.append(f"{op} while the owner (inside `with tree:`, step {p}/{len(steps)}) called {owner_op} and an earlier save() was still "
+                       f"writing: {msg}")
+    wid = tw.ident
+    if any(e[1] == "released" and e[2] == wid and len(e) > 5 for e in log.events):
+        inside = [e for e in log.events if e[2] == wid]
+        bad.append("the owner's lock was given up in the middle of its critical section (Condition.wait on the tree lock)") if not bad else None
+    bad += errors
+    shutil.rmtree(tmpdir, ignore_errors=True)
+    if bad:
+        res.violation(case, "; ".join(dict.fromkeys(b for b in bad if b))[:2500], events=[e for e in log.events if e[1] != "try"][-40:])
+
+
 class _RaisingHook:
     """Callback hook that fails at its k-th invocation (a user callback with a bug, a data object that cannot be mapped)."""
 
@@ -729,7 +852,7 @@ def schedule_F(case, res):
     op, k = case["op"], case["k"]
     log = Log()
     t = build_tree(0)
-    t._lock = LockProxy(t._lock, log)
+    attach_log(t, log)
     tmpdir = tempfile.mkdtemp(prefix="vmon-c18-")
     bad, seen = [], []
 
@@ -796,7 +919,7 @@ def stress(case, res):
     rng = random.Random(case["seed"])
     log = Log()
     t = build_tree(0)
-    t._lock = LockProxy(t._lock, log)
+    attach_log(t, log)
     tmpdir = tempfile.mkdtemp(prefix="vmon-c18-")
     bad = []
     state = {"version": 0, "inside": 0, "max_inside": 0}
@@ -936,6 +1059,9 @@ def _run_case(case, res):
     if k == "F":
         res.case(case, nontrivial=True)
         return schedule_F(case, res)
+    if k == "G":
+        res.case(case, nontrivial=True)
+        return schedule_G(case, res)
     return stress(case, res)
 
 
@@ -966,6 +1092,10 @@ def all_points(tier):
                 pts.append({"kind": "B", "op": op, "style": style, "k": k})
     for nest in (1, 2, 3):
         pts.append({"kind": "C", "nest": nest})
+    for op in OPS:
+        for owner_op in (("save_stream", "save_path") if tier == "quick" else ("save_stream", "save_path", "save_zip", "copy", "to_dict_list")):
+            for style in (("rebuild",) if tier == "quick" else STYLES):
+                pts.append({"kind": "G", "op": op, "owner_op": owner_op, "style": style})
     for op in OPS_WITH_CALLBACK:
         for k in ((1, 3, 8) if tier == "quick" else (1, 2, 3, 5, 8, 12)):
             for nested in (False, True):
@@ -978,6 +1108,8 @@ def all_points(tier):
     # the same schedule points on a TypedTree whose kinds change from version to version (rebuild/mixed styles)
     typed_pts = []
     for pt in pts:
+        if pt["kind"] == "G":
+            continue  # TypedTree.save() writes its output while it still holds the lock: there is no unlocked output phase
         if pt["kind"] in ("C", "D", "F") or (pt.get("style") in ("rebuild", "mixed") and (tier != "quick" or pt.get("phase", 1) in (1, 2) or pt["kind"] == "B")):
             typed_pts.append({**pt, "typed": True})
     return pts + typed_pts
